@@ -185,6 +185,11 @@ def sav_src(op):
         text = 'None' if v is None else ('true' if v else 'false') if isinstance(v, bool) else str(v)
         return ['node.yaml_node = yaml.ScalarNode({!r}, {!r}, node.yaml_node.start_mark, '
                 'node.yaml_node.end_mark)'.format(tag, text)]
+    if k in ('scale', 'unscale'):
+        # a non-idempotent inverse pair (Python only: not part of the hook DSL the Lean model knows)
+        return ['if node.has_attribute({!r}):'.format(op[1]),
+                '    node.set_attribute({!r}, node.get_attribute({!r}).get_value() {} {})'.format(
+                    op[1], op[1], '*' if k == 'scale' else '//', op[2])]
     if k == 'fail':
         return ["raise yatiml.SeasoningError('savorize refuses')"]
     if k == 'other':
